@@ -136,6 +136,22 @@ fn main() {
     }));
     ARMED.store(false, Ordering::SeqCst);
     let witnesses: Vec<String> = nd.witnesses.iter().map(|w| format!("\"{}\"", esc(w))).collect();
+    // optional attribution of a conformance failure to a property (see hmverif::attrib)
+    let mut attribution = String::new();
+    if args.len() >= 6 && args[3] == "--attribute" {
+        let depth: usize = args[5].parse().unwrap_or(2);
+        attribution = match &nd.ctx {
+            None => ", \"attribution\": {\"captured\": false, \"found\": false}".to_string(),
+            Some(ctx) => match hmverif::attrib::attribute(&args[4], ctx, depth) {
+                Some(f) => format!(
+                    ", \"attribution\": {{\"captured\": true, \"found\": true, \"clause\": \"{}\", \"trace\": [{}]}}",
+                    esc(&f.clause),
+                    f.trace.iter().map(|t| format!("\"{}\"", esc(t))).collect::<Vec<_>>().join(", ")
+                ),
+                None => ", \"attribution\": {\"captured\": true, \"found\": false}".to_string(),
+            },
+        };
+    }
     match res {
         Ok(()) => {
             println!(
@@ -153,11 +169,12 @@ fn main() {
             } else {
                 let (msg, allocs) = PANIC_MSG.lock().unwrap().clone().unwrap_or_default();
                 println!(
-                    "REPLAY {{\"outcome\": \"panic\", \"message\": \"{}\", \"allocs\": {}, \"witnesses\": [{}], \"consumed\": {}}}",
+                    "REPLAY {{\"outcome\": \"panic\", \"message\": \"{}\", \"allocs\": {}, \"witnesses\": [{}], \"consumed\": {}{}}}",
                     esc(&msg),
                     allocs,
                     witnesses.join(", "),
-                    nd.pos
+                    nd.pos,
+                    attribution
                 );
             }
         }
